@@ -18,17 +18,11 @@ Definition judge {Q1 Q2} `{EqDec Q1} `{EqDec Q2} `{Canon Q1} `{Canon Q2} (X : en
 Definition judge_opt {Q1 Q2} `{EqDec Q1} `{EqDec Q2} `{Canon Q1} `{Canon Q2} (X : option (enfa Q1)) (R : enfa Q2) : verdict :=
   match X with Some X' => judge X' R | None => VFuel end.
 
-Definition with_syms {Q} (A : enfa Q) (s : list N) : enfa Q :=
-  mkE (e_states A) s (e_delta A) (e_starts A) (e_finals A).
 
 (* reference constructions built from the proved operations *)
 Definition ref_complement (A : enfa N) := option_map complement (determinize true A FUEL).
 Definition ref_intersection (A B : enfa N) := intersection A B FUEL.
-Definition ref_difference (A B : enfa N) :=
-  match ref_complement (with_syms B (union (e_syms B) (e_syms A))) with
-  | Some C => intersection A C FUEL
-  | None => None
-  end.
+Definition ref_difference (A B : enfa N) := difference_fa A B FUEL FUEL.
 
 (* regular expressions returned by the implementation: exact comparison through the proved automaton
    construction when the expression is small, otherwise agreement of the certified matcher with the certified
